@@ -362,7 +362,8 @@ RULES = [
 LEVEL_TEXT = ("Static discipline rules on MIR for install-before-announce / switch-on-confirmation: a receive-only key is emitted exactly where a confirmation "
               "is sent, a sending key only when a confirmation for a pending own proposal arrives; every emitted key is installed unchanged under its id "
               "before the reply can leave; the public key confirmed is the one generated together with the secret used; stale message ids are ignored "
-              "before any mutation; slot arithmetic uses one modulus equal to the number of slots.")
+              "before any mutation; slot arithmetic uses one modulus equal to the number of slots."
+              " Freshness wiring: once the rotation interval has elapsed every feasible path of the tick runs RotationState::cycle.")
 LEVEL_NOTE = ("Partial: decides C07.R1-R6. Not decided: slot reuse versus a delayed switch-over across all interleavings of loss/duplication/reordering, and "
               "freshness (a key change at least every second interval) - schedule properties of two state machines.")
 TECHNIQUE = "MIR control-dependence, provenance (def-use) and sibling-agreement rules"
